@@ -40,7 +40,80 @@ EXCEPTIONS = [
 ]
 
 
-def loop_mutations(paths):
+OBSERVERS = ["root", "get", "leaves_set", "depth", "capacity", "get_subtree_root", "proof", "get_empty_leaves_indices", "metadata"]
+_OBS = {}
+
+
+def self_fields(item):
+    """names of the fields of `self` (local 1) that the body mentions, through (*self).f or self.f"""
+    out = set()
+
+    def walk(x):
+        if isinstance(x, dict):
+            if "l" in x and "proj" in x and x["l"] == 1:
+                for pr in x["proj"]:
+                    if pr[0] == "deref":
+                        continue
+                    if pr[0] == "field":
+                        out.add(pr[2])
+                    break
+            for v in x.values():
+                walk(v)
+        elif isinstance(x, list):
+            for v in x:
+                walk(v)
+    walk(item.blocks)
+    return out
+
+
+def any_fields(item):
+    out = set()
+
+    def walk(x):
+        if isinstance(x, dict):
+            for pr in x.get("proj", []) if isinstance(x.get("proj"), list) else []:
+                if pr[0] == "field" and isinstance(pr[2], str) and not pr[2].isdigit():
+                    out.add(pr[2])
+            for v in x.values():
+                walk(v)
+        elif isinstance(x, list):
+            for v in x:
+                walk(v)
+    walk(item.blocks)
+    return out
+
+
+def observed_fields(fb, name):
+    """fields of the tree object that some read-only operation of the tree interface (or a helper it hands `self` to) reads:
+    a store to any other field cannot change what the tree reports"""
+    key = (id(fb), name)
+    if key in _OBS:
+        return _OBS[key]
+    roots = []
+    for m in OBSERVERS:
+        it = c15.get(fb, name, m)
+        if it is not None:
+            roots.append(it)
+    if len(roots) < 6:
+        raise MissingAnchor("observers of %s (found %d)" % (name, len(roots)))
+    sty = re.sub(r"^&(mut )?", "", roots[0].locals[1]["ty"])
+    seen, _, _ = reach(fb, [r.path for r in roots])
+    fields = set()
+    for pth in seen:
+        it = fb.items[pth]
+        if it.kind not in ("Fn", "AssocFn") or len(it.locals) < 2:
+            continue
+        if re.sub(r"^&(mut )?", "", it.locals[1]["ty"]) != sty:
+            continue
+        fields |= self_fields(it)
+        for c in fb.closures_of(pth):
+            # a closure reads `self` through its captured environment: count every field name it mentions
+            fields |= any_fields(c)
+    _OBS[key] = fields
+    return fields
+
+
+def loop_mutations(paths, observed=None):
     """{loop header: description} for loops whose body changes the tree object (seen on the back-edge paths)"""
     out = {}
     for b in paths:
@@ -52,19 +125,22 @@ def loop_mutations(paths):
                 start = i
         if start is None:
             continue
-        body = [d for i, d in mutation_events(b) if i > start]
+        body = [d for i, d in mutation_events(b, observed=observed) if i > start]
         if body:
             out.setdefault(b.loop, body[0])
     return out
 
 
-def mutation_events(p, self_param=1, loops=None):
-    """ordered list of (index in trace, description) of state changes of the tree object on this path"""
+def mutation_events(p, self_param=1, loops=None, observed=None):
+    """ordered list of (index in trace, description) of state changes of the tree object on this path;
+    `observed`: when given, stores to fields outside it are not observable and are skipped"""
     out = []
     for i, e in enumerate(p.trace):
         if loops and e[0] == "loop" and e[2] in loops and not (p.kind == "backedge" and p.loop == e[2]):
             out.append((i, "loop: " + loops[e[2]]))
         if e[0] == "write" and e[1][1] == -self_param:
+            if observed is not None and e[2] and e[2][0][0] == "f" and e[2][0][1] not in observed:
+                continue
             out.append((i, "store to self.%s" % ".".join(str(k[1]) for k in e[2][:1])))
         elif e[0] == "call" and re.search(r"MerkleTree::<D, H>::(set|set_range|update_next|delete)$|ZerokitMerkleTree>::(set|set_range|update_next|delete|override_range|set_metadata)$|HashMap::<K, V, S, A>::insert$|PmTree::(remove_indices|remove_indices_and_set_leaves)$|Database>?::put$|RLN::(set_tree|set_leaves_from)$", e[1]):
             out.append((i, "call " + e[1].split("::")[-1]))
@@ -73,12 +149,12 @@ def mutation_events(p, self_param=1, loops=None):
     return out
 
 
-def atomicity(ctx, fb, it, inst):
+def atomicity(ctx, fb, it, inst, observed=None):
     eng = Engine(fb, inline=lambda i: False, max_paths=4000)
     paths = eng.run(it)
     bad = {}
     nerr = 0
-    lm = loop_mutations(paths)
+    lm = loop_mutations(paths, observed)
     for p in paths:
         if p.kind != "return":
             continue
@@ -99,7 +175,7 @@ def atomicity(ctx, fb, it, inst):
         if fail_at is None:
             fail_at = len(p.trace)
         nerr += 1
-        muts = [(i, d) for i, d in mutation_events(p, loops=lm) if i < fail_at]
+        muts = [(i, d) for i, d in mutation_events(p, loops=lm, observed=observed) if i < fail_at]
         # the failing call itself is not a completed mutation
         cname = None
         cur = culprit
@@ -138,7 +214,7 @@ def check_atomic(ctx, fb, cfg):
             if it is None:
                 raise MissingAnchor("%s::%s" % (name, m))
             ctx.touch(it)
-            atomicity(ctx, fb, it, "%s::%s" % (name, m))
+            atomicity(ctx, fb, it, "%s::%s" % (name, m), observed_fields(fb, name))
             n += 1
     for m in ("set_leaf", "set_leaves_from", "init_tree_with_leaves", "atomic_operation", "set_next_leaf", "delete_leaf", "set_metadata"):
         it = fb.need("rln::public::RLN::" + m)
